@@ -216,22 +216,47 @@ where
     go (s.length + 1) s false
 
 
-/-- `visit_element(start, end, children)`; `kids` visits the children (the recursive call) -/
-def elementCore (c : BCfg) (kids : List Item → BM (List Node)) (start : Elem) (end0 : Option Elem)
-    (children : List Item) : BM Node := do
+/-- what `visit_element` reads of a start tag besides its attributes -/
+structure Head where
+  name : Tok
+  pfx : Tok
+  suffix : Option Tok
+  ns : Str
+  deriving Repr, Inhabited
+
+def Elem.head (e : Elem) : Head := { name := e.tag.name, pfx := e.tag.pfx, suffix := e.tag.suffix, ns := e.ns }
+
+/-- decode entities of TAL/METAL attribute values (`none`: an entity the model does not know) -/
+def decodeNsAttr (rx : Rx) (e : (Str × Str) × Tok) : Option ((Str × Str) × Tok) :=
+  if e.1.1 == TAL || e.1.1 == METAL then
+    (decodeEntities rx e.2.str).map (fun d => (e.1, ({ e.2 with str := d } : Tok)))
+  else some e
+
+def decodeNsAttrs (rx : Rx) : List ((Str × Str) × Tok) → Option (List ((Str × Str) × Tok))
+  | [] => some []
+  | e :: l => match decodeNsAttr rx e, decodeNsAttrs rx l with
+    | some e', some l' => some (e' :: l')
+    | _, _ => none
+
+/-- the first steps of `visit_element`: data attributes, entity decoding and validation of the statement
+attributes.  Yields the statement dictionary and the attribute list `prepare_attributes` works on. -/
+def elementPre (c : BCfg) (start : Elem) : BM (List ((Str × Str) × Tok) × List Attr) := do
     let (ns0, attrs) ← if c.enableDataAttributes then liftCB (convertDataAttributes c.q dropNs start.nsAttrs start.tag.attrs start.nsMap)
                        else pure (start.nsAttrs, start.tag.attrs)
-    -- decode entities of TAL/METAL attribute values
-    let ns ← ns0.mapM (fun ((p, a), v) =>
-      if p == TAL || p == METAL then
-        match decodeEntities c.rx v.str with
-        | some d => pure ((p, a), ({ v with str := d } : Tok))
-        | none => bCrash "unsupported-entity"
-      else pure ((p, a), v))
+    let ns ← match decodeNsAttrs c.rx ns0 with
+      | some ns => pure ns
+      | none => bCrash "unsupported-entity"
     liftCB (validateAttributes ns start.nsNames TAL talWhitelist)
     liftCB (validateAttributes ns start.nsNames METAL metalWhitelist)
     liftCB (validateAttributes ns start.nsNames I18N i18nWhitelist)
-    let get (k : Str × Str) : Option Tok := nsGet ns k
+    pure (ns, attrs)
+
+/-- the rest of `visit_element`.  The statement attributes are read only through the lookup `get`
+(`ns_attrs.get((ns, name))`), the other attributes only through `prep` (`prepare_attributes`), and the children
+through the action `kids` (the recursive visit), which runs exactly once. -/
+def elementBodyPre (c : BCfg) (start : Head) (end0 : Option Elem)
+    (get : Str × Str → Option Tok)
+    (prep : List (Option Tok × Tok) → List (Str × Option Str) → Option (List PAttr)) : BM (List Node → BM Node) := do
     let nonEmpty (o : Option Tok) : Bool := match o with | some t => !t.str.isEmpty | none => false
     -- _check_attributes
     if dropNs.contains start.ns && nonEmpty (get (TAL, lit "attributes")) then
@@ -300,7 +325,7 @@ def elementCore (c : BCfg) (kids : List Item → BM (List Node)) (start : Elem) 
             let n : Node → Node := fun content0 => makeContentNode contentId expr (some content0) st translate
             match end0 with
             | some e => pure (n, some e.tag, false)
-            | none => pure (n, some { pfx := { str := lit "</", pos := 0 }, name := start.tag.name,
+            | none => pure (n, some { pfx := { str := lit "</", pos := 0 }, name := start.name,
                                        suffix := some { str := lit ">", pos := 0 },
                                        space := some { str := [], pos := 0 }, attrs := [], spans := [], restLen := 0 }, true)
         -- i18n:translate
@@ -318,13 +343,13 @@ def elementCore (c : BCfg) (kids : List Item → BM (List Node)) (start : Elem) 
         let i18nAttrs ← match get (I18N, lit "attributes") with
           | none => pure []
           | some cl => liftCB (i18nParseAttributes c.q cl)
-        let prepared ← match prepareAttributes c.q attrs talAttrs i18nAttrs (attrNamespace start.nsMap start.ns) ns dropNs with
+        let prepared ← match prep talAttrs i18nAttrs with
           | some p => pure p
           | none => bCrash "IndexError"
         let (attrNodes, filtering) ← createAttributeNodes c prepared i18nAttrs
         let attributes : Node := if filtering.isEmpty then .seq attrNodes else .cache filtering (.seq attrNodes)
-        let suffix : Option Str := if forceSuffix then some (lit ">") else start.tag.suffix.map (·.str)
-        let startTag : Node := .start start.tag.name.str (maybeTrim c start.tag.pfx.str) (suffix.map (maybeTrim c)) attributes
+        let suffix : Option Str := if forceSuffix then some (lit ">") else start.suffix.map (·.str)
+        let startTag : Node := .start start.name.str (maybeTrim c start.pfx.str) (suffix.map (maybeTrim c)) attributes
         let endTag : Option Node := end1.map (fun e =>
           Node.end_ e.name.str (e.space.map (·.str)) (maybeTrim c e.pfx.str) (e.suffix.map (fun s => maybeTrim c s.str)))
         -- tal:omit-tag
@@ -362,7 +387,7 @@ def elementCore (c : BCfg) (kids : List Item → BM (List Node)) (start : Elem) 
       let i18nAttrs ← match get (I18N, lit "attributes") with
         | none => pure []
         | some cl => liftCB (i18nParseAttributes c.q cl)
-      match prepareAttributes c.q attrs talAttrs i18nAttrs (attrNamespace start.nsMap start.ns) ns dropNs with
+      match prep talAttrs i18nAttrs with
       | some p => pure (p.filterMap (fun pa => match pa.name with
           | some n => some (n, match pa.text with | some t => t.str | none => (pa.expr.map (·.str)).getD [])
           | none => none))
@@ -428,67 +453,83 @@ def elementCore (c : BCfg) (kids : List Item → BM (List Node)) (start : Elem) 
     let onErrorParsed ← match get (TAL, lit "on-error") with
       | none => pure none
       | some cl => do let r ← liftCB (parseSubstitution c.rx cl); pure (some r)
-    -- ---- children
-    let body ← kids children
-    bModify (fun s => { s with switches := s.switches.drop 1, interpolation := s.interpolation.drop 1 })
-    let sU ← bGet
-    let inner : Node := if isMacroUse then
-        (match innerF [] with
-         | .define as (.useExternal e _ ext) => .define as (.useExternal e (sU.useMacro.headD []) ext)
-         | n => n)
-      else innerF body
-    if nonEmpty useMacro then bModify (fun s => { s with useMacro := s.useMacro.drop 1 }) else pure ()
-    let assigns : List Assign := Assign.alias (lit "attrs") (.staticDict staticDict) ::
-      defines.map (fun d => Assign.assign d.names (.value d.expr) (d.ctx == .local_))
-    let ws : List (Wrapper × (Node → Node)) :=
-      [(Wrapper.define, fun node => Node.define assigns node)] ++
-      (match defineSlotW with | some w => [(Wrapper.defineSlot, w)] | none => []) ++
-      (match caseW with | some w => [(Wrapper.case_, w)] | none => []) ++
-      (match conditionW with | some w => [(Wrapper.condition, w)] | none => []) ++
-      (match repeatW with | some w => [(Wrapper.repeat_, w)] | none => []) ++
-      (match switchW with | some w => [(Wrapper.switch, w)] | none => []) ++
-      (match domainW with | some w => [(Wrapper.domain, w)] | none => []) ++
-      (match contextW with | some w => [(Wrapper.context, w)] | none => []) ++
-      (match targetW with | some w => [(Wrapper.target, w)] | none => [])
-    let slot0 := applyWrappers ws wrapOrder inner
-    -- metal:fill-slot: the node goes to the slot list of the enclosing use-macro
-    let slot1 ← match get (METAL, lit "fill-slot") with
-      | some cl => do
-        let index := if isMacroUse then 1 else 0
-        bModify (fun s => { s with useMacro := (s.useMacro.take index) ++
-          [ (s.useMacro.getD index []) ++ [(cl, slot0)] ] ++ s.useMacro.drop (index + 1) })
-        pure slot0
-      | none => pure slot0
-    -- metal:define-macro
-    let slot2 ← match get (METAL, lit "define-macro") with
-      | some cl => do
-        -- `self._macros[clause] = slot`: a dict keeps the position of a key that is assigned again
-        bModify (fun s =>
-          let ms : List (Str × Node) := if s.macros.any (fun m => m.1 == cl.str)
-            then s.macros.map (fun m => if m.1 == cl.str then (cl.str, slot1) else m)
-            else s.macros ++ [(cl.str, slot1)]
-          { s with macros := ms })
-        pure (Node.useInternal (some cl.str))
-      | none => pure slot1
-    let slot3 := match nameW with | some w => w slot2 | none => slot2
-    -- tal:on-error
-    match onErrorParsed with
-    | none => pure slot3
-    | some (st, expr) => do
-      let translate := match get (I18N, lit "translate") with | some t => t.str.isEmpty | none => false
-      let fbContent := makeContentNode 0 expr none st translate
-      let fallback : Node :=
-        if !omitTag && !dropNs.contains start.ns then
-          match startTag with
-          | some (.start nm pfx sfx _) =>
-            let (sfx', endTag') := match endTag with
-              | some e => (sfx, e)
-              | none => (some (lit ">"), Node.end_ nm (some []) (lit "</") (some (lit ">")))
-            .element (.start nm pfx sfx' (.seq staticAttrNodes)) (some endTag') fbContent
-          | _ => fbContent
-        else fbContent
-      let oid ← freshId
-      pure (.onError oid fallback slot3)
+    -- ---- what happens once the children are visited
+    pure (fun body => do
+      bModify (fun s => { s with switches := s.switches.drop 1, interpolation := s.interpolation.drop 1 })
+      let sU ← bGet
+      let inner : Node := if isMacroUse then
+          (match innerF [] with
+           | .define as (.useExternal e _ ext) => .define as (.useExternal e (sU.useMacro.headD []) ext)
+           | n => n)
+        else innerF body
+      if nonEmpty useMacro then bModify (fun s => { s with useMacro := s.useMacro.drop 1 }) else pure ()
+      let assigns : List Assign := Assign.alias (lit "attrs") (.staticDict staticDict) ::
+        defines.map (fun d => Assign.assign d.names (.value d.expr) (d.ctx == .local_))
+      let ws : List (Wrapper × (Node → Node)) :=
+        [(Wrapper.define, fun node => Node.define assigns node)] ++
+        (match defineSlotW with | some w => [(Wrapper.defineSlot, w)] | none => []) ++
+        (match caseW with | some w => [(Wrapper.case_, w)] | none => []) ++
+        (match conditionW with | some w => [(Wrapper.condition, w)] | none => []) ++
+        (match repeatW with | some w => [(Wrapper.repeat_, w)] | none => []) ++
+        (match switchW with | some w => [(Wrapper.switch, w)] | none => []) ++
+        (match domainW with | some w => [(Wrapper.domain, w)] | none => []) ++
+        (match contextW with | some w => [(Wrapper.context, w)] | none => []) ++
+        (match targetW with | some w => [(Wrapper.target, w)] | none => [])
+      let slot0 := applyWrappers ws wrapOrder inner
+      -- metal:fill-slot: the node goes to the slot list of the enclosing use-macro
+      let slot1 ← match get (METAL, lit "fill-slot") with
+        | some cl => do
+          let index := if isMacroUse then 1 else 0
+          bModify (fun s => { s with useMacro := (s.useMacro.take index) ++
+            [ (s.useMacro.getD index []) ++ [(cl, slot0)] ] ++ s.useMacro.drop (index + 1) })
+          pure slot0
+        | none => pure slot0
+      -- metal:define-macro
+      let slot2 ← match get (METAL, lit "define-macro") with
+        | some cl => do
+          -- `self._macros[clause] = slot`: a dict keeps the position of a key that is assigned again
+          bModify (fun s =>
+            let ms : List (Str × Node) := if s.macros.any (fun m => m.1 == cl.str)
+              then s.macros.map (fun m => if m.1 == cl.str then (cl.str, slot1) else m)
+              else s.macros ++ [(cl.str, slot1)]
+            { s with macros := ms })
+          pure (Node.useInternal (some cl.str))
+        | none => pure slot1
+      let slot3 := match nameW with | some w => w slot2 | none => slot2
+      -- tal:on-error
+      match onErrorParsed with
+      | none => pure slot3
+      | some (st, expr) => do
+        let translate := match get (I18N, lit "translate") with | some t => t.str.isEmpty | none => false
+        let fbContent := makeContentNode 0 expr none st translate
+        let fallback : Node :=
+          if !omitTag && !dropNs.contains start.ns then
+            match startTag with
+            | some (.start nm pfx sfx _) =>
+              let (sfx', endTag') := match endTag with
+                | some e => (sfx, e)
+                | none => (some (lit ">"), Node.end_ nm (some []) (lit "</") (some (lit ">")))
+              .element (.start nm pfx sfx' (.seq staticAttrNodes)) (some endTag') fbContent
+            | _ => fbContent
+          else fbContent
+        let oid ← freshId
+        pure (.onError oid fallback slot3))
+
+/-- the rest of `visit_element`: the statements of the element itself, then the children (`kids`, the recursive
+visit, runs exactly once), then the assembly of the node -/
+def elementBody (c : BCfg) (kids : BM (List Node)) (start : Head) (end0 : Option Elem)
+    (get : Str × Str → Option Tok)
+    (prep : List (Option Tok × Tok) → List (Str × Option Str) → Option (List PAttr)) : BM Node := do
+  let post ← elementBodyPre c start end0 get prep
+  let body ← kids
+  post body
+
+/-- `visit_element(start, end, children)`; `kids` visits the children (the recursive call) -/
+def elementCore (c : BCfg) (kids : List Item → BM (List Node)) (start : Elem) (end0 : Option Elem)
+    (children : List Item) : BM Node := do
+  let (ns, attrs) ← elementPre c start
+  elementBody c (kids children) start.head end0 (nsGet ns)
+    (fun dyn i18n => prepareAttributes c.q attrs dyn i18n (attrNamespace start.nsMap start.ns) ns dropNs)
 
 mutual
 def visitItems (c : BCfg) : Nat → List Item → BM (List Node)
